@@ -29,6 +29,18 @@ class Hang(BaseException):
     """the call under test would never return"""
 
 
+def eintr_map(lst):
+    """EINTR schedule of a process: entries are a call index (signal at once) or [index, [num, den]] = the
+    signal arrives that long after the call was made (matters only when the call blocks)"""
+    out = {}
+    for e in lst:
+        if isinstance(e, int):
+            out.setdefault(e, F(0))
+        else:
+            out.setdefault(e[0], unq(e[1]))
+    return out
+
+
 def status_word(s):
     return s[1] * 256 if s[0] == "code" else s[1] + (128 if s[2] else 0)
 
@@ -45,7 +57,7 @@ class VKernel:
         self.procs = {}
         for p in procs:
             self.procs[p["pid"]] = {"kind": p["kind"], "exit": unq(p["exit"]), "status": status_word(p["status"]),
-                                    "eintr": set(p["eintr"]), "ncalls": 0, "reaped": False, "infs": True}
+                                    "eintr": eintr_map(p["eintr"]), "ncalls": 0, "reaped": False, "infs": True}
         self.sleeps = []
         self.ops = 0
 
@@ -87,6 +99,17 @@ class VKernel:
         idx = p["ncalls"]
         p["ncalls"] += 1
         if idx in p["eintr"]:
+            blocks = not (flags & os.WNOHANG) and p["kind"] == "child" and not p["reaped"]
+            if blocks:
+                # a blocking call returns at whichever comes first: the exit or the signal (tie: the signal)
+                te = self.clock + p["eintr"][idx]
+                tx = None if p["exit"] is None else max(p["exit"], self.clock)
+                if tx is not None and tx < te:
+                    self.clock = tx
+                    self.sync()
+                    return self._reap(pid, p)
+                self.clock = te
+                self.sync()
             raise InterruptedError(4, "Interrupted system call")
         if p["kind"] != "child" or p["reaped"]:
             raise ChildProcessError(10, "No child processes")
